@@ -20,7 +20,9 @@ namespace Tephra
 /-- both endpoints of a span satisfy `P` -/
 def SpanP (P : Pos → Prop) (x : Span) : Prop := P x.s ∧ P x.e
 
-/-- every span field of the error satisfies `Q`, every position field `P` -/
+/-- every span field of the error satisfies `Q`, every position field `P`; a count error reports
+fewer items than the minimum (the only way `list` builds one — `RepeatCountError`'s description
+unwraps the maximum otherwise) -/
 def ErrQ (Q : Span → Prop) (P : Pos → Prop) : ErrBody → Prop
   | .unexp es ts _ _ => Q es ∧ Q ts
   | .unrec es => Q es
@@ -30,7 +32,7 @@ def ErrQ (Q : Span → Prop) (P : Pos → Prop) : ErrBody → Prop
   | .bracketUnclosed s => Q s
   | .bracketUnopened s => Q s
   | .bracketMismatch s e => Q s ∧ Q e
-  | .count es _ _ _ => Q es
+  | .count es found min _ => Q es ∧ found < min
   | .probe _ => True
 
 mutual
@@ -785,12 +787,13 @@ theorem spAt_succ (hc : Closed R.E P m) (hQ : QEncl P Q) (n : Nat) (ih : SpAt R 
       split
       · exact ⟨trivial, hW⟩
       · split
-        · split
+        · next hlt =>
+          split
           · next e' W1 hs =>
-            have := sendError_spec (P := P) (Q := Q) hs (hps hl) hW
+            have := sendError_spec (P := P) (Q := Q) hs ⟨hps hl, hlt⟩ hW
             exact ⟨this.2 _ rfl, this.1⟩
           · next W1 hs =>
-            have := sendError_spec (P := P) (Q := Q) hs (hps hl) hW
+            have := sendError_spec (P := P) (Q := Q) hs ⟨hps hl, hlt⟩ hW
             exact ⟨⟨hl, ValsQ_reverse hv⟩, this.1⟩
         · exact ⟨⟨hl, ValsQ_reverse hv⟩, hW⟩
     split
